@@ -566,19 +566,24 @@ type crashGate struct {
 	release  chan struct{}
 }
 
-// verifhook handler of the child: only sessions whose Login.Hostname was armed by a `tear` op park
+// verifhook handler of the child: only what a `tear` / `relogin` / `gleave` op armed parks — sessions by their
+// Login.Hostname, group registrations by the proxy or group name (every armed key starts with "c16gate-")
 func (w *crashWorld) gateHook(point string, keys []string) {
-	if len(keys) < 2 || !strings.HasPrefix(keys[1], "c16gate-") {
-		return
+	var g *crashGate
+	for _, k := range keys {
+		if !strings.HasPrefix(k, "c16gate-") {
+			continue
+		}
+		w.gmu.Lock()
+		if x := w.gates[k]; x != nil && x.point == point {
+			delete(w.gates, k)
+			g = x
+		}
+		w.gmu.Unlock()
+		if g != nil {
+			break
+		}
 	}
-	w.gmu.Lock()
-	g := w.gates[keys[1]]
-	if g != nil && g.point == point {
-		delete(w.gates, keys[1])
-	} else {
-		g = nil
-	}
-	w.gmu.Unlock()
 	if g != nil {
 		close(g.isParked)
 		<-g.release
